@@ -31,7 +31,7 @@ async fn run(mut s: Sim, mut rng: Rng, len: usize) -> Sim {
     let mut limit_guess = 4usize;
     let mut pending: Vec<(K, K)> = vec![];   // (service key, payer) of requests believed pending
     for _ in 0..len {
-        let mut payer = rng.pick(&users[2..]).clone();
+        let mut payer = if rng.chance(1, 7) { sentinel.clone() } else { rng.pick(&users[2..]).clone() };   // incl. sentinel = requester
         let mut svc = if rng.chance(1, 25) { K::System } else { rng.pick(&svcs).clone() };
         let settle = rng.chance(3, 4) && !pending.is_empty();
         let kind = rng.below(22);
@@ -80,7 +80,8 @@ async fn run(mut s: Sim, mut rng: Rng, len: usize) -> Sim {
                     let fake = K::User(700 + rng.below(2));
                     let owner = rng.pick(&[K::Rogue(2), K::System, K::Rd, K::Token]).clone();
                     s.forge_pp_config(&attacker, &fake, &owner).await;
-                    let ix = match rng.below(3) { 0 => s.pp_configure(&attacker, PpSetting::BackupLimit(9)), 1 => s.pp_grant(&attacker, &svc, &payer), _ => s.pp_deny(&attacker, &svc) };
+                    let ix = match rng.below(4) { 0 => s.pp_configure(&attacker, PpSetting::BackupLimit(9)), 1 => s.pp_grant(&attacker, &svc, &payer), 2 => s.pp_deny(&attacker, &svc),
+                        _ => { let mode = s.access_mode(&K::User(300), &svc, 9, None); s.pp_request(&payer, &svc, &mode) } };
                     s.op(tx(vec![ix.with_key(0, &fake)])).await;
                 }
                 continue; }
